@@ -108,6 +108,10 @@ def finish(a, src, meta):
         for k in ("needs_to_manifest", "what"):
             if k in old:
                 meta[k] = old[k]
+        if meta.get("tests_pass_with_change") is None and old.get("tests_pass_with_change") is not None:
+            meta["tests_pass_with_change"] = old["tests_pass_with_change"]
+            meta["ran"]["test_suite_with_change"] = old.get("ran", {}).get("test_suite_with_change")
+            meta["confirmed"] = bool(meta["tests_pass_with_change"]) and meta.get("demo_discriminates", False)
     json.dump(meta, open(mp, "w"), indent=1)
     print(json.dumps({k: meta.get(k) for k in ("seed_id", "confirmed", "tests_pass_with_change", "demo_discriminates", "caught_by")}))
     return 0
